@@ -137,12 +137,15 @@ class PyMachine:
             ks = emu.keyboard.snapshot_state()
             m = dict(ks.get("matrix", {}))
             m["pressed_keys"] = sorted(m.get("pressed_keys", []))
+            m.pop("kil_latch", None)  # derived latch, recomputed by the loader
+            ks.pop("last_kil", None)
             m["key_states"] = sorted((k, tuple(sorted(v.items()))) for k, v in m.get("key_states", {}).items()
                                      if any(v.values()))
             ks["matrix"] = m
             d["kb_state"] = _h(repr(sorted(ks.items(), key=lambda kv: kv[0])).encode())
         except Exception:
             d["kb_state"] = "n/a"
+        d["last_imem_values"] = dict(g(emu, "_last_imem_values") or {})
         d["kb_metrics"] = [g(emu, "_kb_strobe_count"), list(g(emu, "_kb_col_hist") or []),
                            list(g(emu, "_last_kil_columns") or []), g(emu, "_last_kol"), g(emu, "_last_koh"),
                            g(emu, "_kil_read_count")]
